@@ -34,11 +34,16 @@ impl<A> ArcForceTx<A> { pub uninterp spec fn chan(&self) -> int; pub uninterp sp
 impl<A> WeakTx<A> { pub uninterp spec fn chan(&self) -> int;
     #[verifier::external_body] pub fn strong_count(&self) -> (r: usize) { unimplemented!() }
     #[verifier::external_body] pub fn clone(&self) -> (r: Self) ensures r.chan() == self.chan() { unimplemented!() }
-    #[verifier::external_body] pub fn upgrade(&self) -> (r: Option<ArcTx<A>>) ensures r is Some ==> r->0.chan() == self.chan() { unimplemented!() } }
+    #[verifier::external_body] pub fn upgrade(&self) -> (r: Option<ArcTx<A>>) ensures r is Some ==> r->0.chan() == self.chan(), (r is Some) == tx_alive(self.chan()) { unimplemented!() } }
 impl<A> WeakForceTx<A> { pub uninterp spec fn chan(&self) -> int;
     #[verifier::external_body] pub fn strong_count(&self) -> (r: usize) { unimplemented!() }
     #[verifier::external_body] pub fn clone(&self) -> (r: Self) ensures r.chan() == self.chan() { unimplemented!() }
-    #[verifier::external_body] pub fn upgrade(&self) -> (r: Option<ArcForceTx<A>>) ensures r is Some ==> r->0.chan() == self.chan() { unimplemented!() } }
+    #[verifier::external_body] pub fn upgrade(&self) -> (r: Option<ArcForceTx<A>>) ensures r is Some ==> r->0.chan() == self.chan(), (r is Some) == force_alive(self.chan()) { unimplemented!() } }
+// whether some strong handle of that half of the channel exists at the instant of the query (Weak::upgrade succeeds exactly then). The
+// handle functions that upgrade contain no blocking operation: within one of them these are the facts of ONE instant
+pub uninterp spec fn tx_alive(chan: int) -> bool;
+pub uninterp spec fn force_alive(chan: int) -> bool;
+pub open spec fn both_alive(chan: int) -> bool { tx_alive(chan) && force_alive(chan) }
 impl<A> OwnView for ArcTx<A> { open spec fn own(&self) -> Own { Own { none: false, chan: self.chan(), s_tx: true, s_force: false, w_tx: false, w_force: false, mixed: false } } }
 impl<A> OwnView for ArcForceTx<A> { open spec fn own(&self) -> Own { Own { none: false, chan: self.chan(), s_tx: false, s_force: true, w_tx: false, w_force: false, mixed: false } } }
 impl<A> OwnView for WeakTx<A> { open spec fn own(&self) -> Own { Own { none: false, chan: self.chan(), s_tx: false, s_force: false, w_tx: true, w_force: false, mixed: false } } }
